@@ -658,6 +658,11 @@ func init() {
 					sh = append(sh, vShard{Name: fmt.Sprintf("sweep/%s/M%d", metric, m), Run: func(c *vCtx) { vC12Sweep(c, metric, m) }})
 				}
 			}
+			// one long-lived index: 70 000 searches, then 70 000 add / remove cycles
+			for _, ecfg := range []vVecCfg{{Kind: "hnsw", Metric: Euclidean, Dim: 3, M: 32, Ef: 80}, {Kind: "hnsw", Metric: Cosine, Dim: 2, M: 4, Ef: 50}} {
+				ecfg := ecfg
+				sh = append(sh, vShard{Name: "endurance/" + strings.ReplaceAll(ecfg.String(), " ", ","), Run: func(c *vCtx) { vKindEndurance(c, ecfg, 70000, nil) }})
+			}
 			for _, m := range []int{2, 3, 4, 8, 16} {
 				m := m
 				maxN := 3*m + 4
@@ -669,6 +674,13 @@ func init() {
 			return sh
 		},
 		Replay: func(c *vCtx, v *vViolation) bool {
+			if i := strings.Index(v.Config, " endurance n="); i >= 0 {
+				var n int
+				fmt.Sscanf(v.Config[i:], " endurance n=%d", &n)
+				vKindEndurance(c, vParseVecCfg(v.Config[:i]), n, nil)
+				_, ok := c.viol[v.Sig()]
+				return ok
+			}
 			if i := strings.Index(v.Config, " tails n="); i >= 0 {
 				var n int
 				fmt.Sscanf(v.Config[i:], " tails n=%d", &n)
